@@ -43,3 +43,8 @@ add("C02", "exploration",
     "Trusted: harness/ref for object sizes; the VerifReadLimit observer (build tag verif). Concurrent interleavings are sampled by the Go scheduler, not enumerated; the race detector covers non-atomic updates, the sum-after-join oracle covers lost updates.",
     "property-based testing over cyclic graph generators with invariant oracles, concurrency stress under -race (rapid)",
     "DESIGN.md section 3, C02")
+add("C14", "exploration",
+    "Generated message sequences (1-513 segments, empty segments, run-structured contents) are written by plain and packed encoders and read back through decoders with and without buffer reuse over drawn reader chunkings; the stream must parse with an independent unframer/unpacker; for drawn cuts and, on small streams, EVERY cut position the decoded messages are a prefix and io.EOF is reported iff the cut is a frame boundary. Hostile headers x MaxMessageSize values: no panic, measured allocation within the limit, <= 513 segments, acceptance identical to the independent unframer; Unmarshal of arbitrary bytes: no panic, allocation proportional to input.",
+    "Trusted: ref.Unframe/ref.Unpack. Allocation is a process-wide counter that advances in span-sized steps: min of three attempts, 64 KiB slack, so only gross over-allocation (the attack the property is about) is detectable.",
+    "property-based round-trip + exhaustive cut enumeration + differential against an independent unframer, allocation metering (rapid)",
+    "DESIGN.md section 3, C14")
